@@ -275,6 +275,12 @@ DOC_F = "# Title\n\nsome *text* with `code` here\n"
 DOC_G = ("intro\n\n    indented code\n    more code\n\n> quote\n>\n>     quoted code\n\n<div>\nhtml\n</div>\n\n| t |\n|---|\n| c |\n\n"
          "~~~\nfence\n~~~\n\n1. a\n   - b\n\nsetext\n===\n\n***\n\n[r]: /u\n\n[r] <b>x</b> &amp; ~~s~~ \"q\" end\n")
 # state of the inline parser that must be per call: backtick closer cache, skipToken memo, delimiter lists, link title result
+# per-call recursion guards: nested labels whose depths stay below maxNesting alone (20 under commonmark, 100 under
+# js-default) but not when two calls' depths are added up
+DOC_H = "see " + "[" * 14 + "alpha" + "]" * 14 + "(/a) for details\n"
+DOC_I = "and " + "[" * 12 + "beta" + "]" * 12 + "(/b) as well\n"
+DOC_J = "see " + "[" * 60 + "alpha" + "]" * 60 + "(/a) for details\n"
+DOC_K = "and " + "![" * 25 + "beta" + "]" * 25 + "(/b) as well\n"
 DOC_D = "Write `` in prose, then run `make` and `make test` to check [x](/u 't1') *a* [[n]](/v).\n"
 DOC_E = "A stray `` and a lone ` here ![i](/s \"t2\") **b** [[[m]]](/w 'tw').\n"
 
@@ -343,7 +349,7 @@ def run(ctx) -> int:
 
     makers = [("fresh commonmark", mk_fresh()), ("fresh js-default+ext", mk_fresh("js-default", {"typographer": True})),
               ("reconfigured", mk_reconfigured)]
-    pairs = [(DOC_A, DOC_B), (DOC_F, DOC_G), (DOC_D, DOC_E), (DOC_B, DOC_C)]
+    pairs = [(DOC_A, DOC_B), (DOC_F, DOC_G), (DOC_D, DOC_E), (DOC_B, DOC_C), (DOC_H, DOC_I), (DOC_J, DOC_K)]
     # (i-a) every instruction boundary inside ruler.py during A's first use, B nested
     for mname, mk in makers:
         for da, db in pairs[: 1 if tier == "quick" else 4]:
@@ -367,6 +373,9 @@ def run(ctx) -> int:
     if not violations:
         for mname, mk in makers:
             for da, db in pairs:
+                # the nested-label pairs are sized for one nesting limit each
+                if (da is DOC_H and "js-default" in mname) or (da is DOC_J and "js-default" not in mname):
+                    continue
                 sa, sb = solo(mk, da), solo(mk, db)
                 n = count_events(mk, da, "line", all_codes)
                 ks = list(range(1, n + 1))
